@@ -351,6 +351,29 @@ func runC11(c *mc.Ctx) {
 			add(func(i int) bool { return i == k || i == n-1 })
 		}
 	}
+	// tree-height ladder: the smallest and the largest block of every tree height 13..17 (thorough ..21),
+	// i.e. n = 2^(h-1)+1 and 2^h, with a handful of subsets each - per-level bookkeeping that is sized
+	// for "any realistic tree" ends at some height, and a block of 4097 transactions has height 13
+	{
+		maxH := mc.Pick(c, 17, 21)
+		for h := 13; h <= maxH; h++ {
+			for _, n := range []int{1<<(h-1) + 1, 1 << h} {
+				if n == 4097 {
+					continue
+				}
+				for _, set := range [][]int{{0}, {n - 1}, {0, n - 1}, {n / 2, n/2 + 1}} {
+					b := make([]byte, n)
+					for i := range b {
+						b[i] = '0'
+					}
+					for _, k := range set {
+						b[k] = '1'
+					}
+					cases = append(cases, c11Case{N: n, Subset: string(b)})
+				}
+			}
+		}
+	}
 	c.Space("(n, subset) pairs", int64(len(cases)))
 	c.ParFor(int64(len(cases)), func(w *mc.W, i int64) {
 		w.State()
